@@ -161,7 +161,7 @@ func (env *Env) c08ByteCheck() {
 	for _, a := range alts {
 		has := func(m pat.M) bool { return hasGateAny(a, m) != nil }
 		switch {
-		case has(pat.Bin("==", pat.Len(req), pat.Const("0"))):
+		case has(pat.Empty(req)):
 			nSkip++
 		case has(pat.Bin("==", pat.Len(req), size)) && has(eqBytes(req, given)):
 			nCmp++
@@ -188,7 +188,7 @@ func (env *Env) c08Rtmr() {
 	alts := e.EntryPaths(fn, flow.ModeErr)
 	nSkip, nCmp := 0, 0
 	for _, a := range alts {
-		if hasGateAny(a, pat.Bin("==", pat.Len(req), pat.Const("0"))) != nil {
+		if hasGateAny(a, pat.Empty(req)) != nil {
 			nSkip++
 			continue
 		}
@@ -223,7 +223,7 @@ func (env *Env) c08Any() {
 	alts := e.EntryPaths(fn, flow.ModeErr)
 	nSkip, nHit := 0, 0
 	for _, a := range alts {
-		if hasGateAny(a, pat.Bin("==", pat.Len(allowed), pat.Const("0"))) != nil {
+		if hasGateAny(a, pat.Empty(allowed)) != nil {
 			nSkip++
 			continue
 		}
@@ -338,7 +338,7 @@ func (env *Env) c08MinVersion() {
 	min := pat.Is(fieldT(opts, "TdQuoteBodyOptions", "MinimumTeeTcbSvn"))
 	okAll := true
 	for _, a := range alts {
-		if hasGateAny(a, pat.Bin("==", pat.Len(min), pat.Const("0"))) != nil {
+		if hasGateAny(a, pat.Empty(min)) != nil {
 			continue
 		}
 		var loop string
@@ -372,7 +372,7 @@ func (env *Env) c08Masks() {
 		ok := len(alts) > 0
 		nChk := 0
 		for _, a := range alts {
-			if hasGateAny(a, pat.Bin("==", pat.Len(v), pat.Const("0"))) != nil {
+			if hasGateAny(a, pat.Empty(v)) != nil {
 				continue
 			}
 			nChk++
@@ -639,9 +639,9 @@ func (env *Env) c14Lengths() {
 		length, value := pat.Is(param(lc, 1)), pat.Is(param(lc, 2))
 		ok := true
 		alts := ee.EntryPaths(lc, flow.ModeErr)
-		imp := pat.Op("implies", "", pat.OneOf(pat.Bin("!=", value, pat.Const("nil")), pat.Bin("!=", pat.Len(value), pat.Const("0"))), pat.Bin("==", pat.Len(value), length))
+		imp := pat.Op("implies", "", pat.OneOf(pat.Bin("!=", value, pat.Const("nil")), pat.NonEmpty(value)), pat.Bin("==", pat.Len(value), length))
 		for _, a := range alts {
-			if hasGateAny(a, pat.Bin("==", value, pat.Const("nil"))) == nil && hasGateAny(a, pat.Bin("==", pat.Len(value), length)) == nil && hasGateAny(a, pat.Bin("==", pat.Len(value), pat.Const("0"))) == nil && hasGateAny(a, imp) == nil {
+			if hasGateAny(a, pat.Bin("==", value, pat.Const("nil"))) == nil && hasGateAny(a, pat.Bin("==", pat.Len(value), length)) == nil && hasGateAny(a, pat.Empty(value)) == nil && hasGateAny(a, imp) == nil {
 				ok = false
 			}
 		}
@@ -657,7 +657,7 @@ func (env *Env) c14Lengths() {
 		alts := ee.EntryPaths(lm, flow.ModeErr)
 		ok := len(alts) >= 2
 		for _, a := range alts {
-			if hasGateAny(a, pat.Bin("==", pat.Len(value), pat.Const("0"))) != nil {
+			if hasGateAny(a, pat.Empty(value)) != nil {
 				continue
 			}
 			// every entry empty or exact
